@@ -91,11 +91,15 @@ func zzIsPrefix(p, full []byte) bool {
 // returns errDisconnect; a clean end of the source forwards everything; logged
 // bytes equal forwarded bytes up to the one chunk in flight.
 //
-//verif:harness kind=api unwind=64 bound=chunks<=3,chunk<=2B,veto/write-error-at-any-call
+//verif:harness kind=api unwind=64 bound=chunks<=3(quick)/4(thorough),chunk<=2B,veto/write-error-at-any-call
 func ZZ_C06_CopyOneDirection() {
-	src := zzEndpoint("src", 3)
-	dst := &zzEnd{writeErrAt: verifChoice("writeErrAt", 4) - 1}
-	vetoAt := verifChoice("vetoAt", 4) - 1
+	nc := 3
+	if verifThorough() {
+		nc = 4
+	}
+	src := zzEndpoint("src", nc)
+	dst := &zzEnd{writeErrAt: verifChoice("writeErrAt", nc+1) - 1}
+	vetoAt := verifChoice("vetoAt", nc+1) - 1
 	var logged uint64
 	calls := 0
 	lastApprovedWrites := -1
